@@ -16,6 +16,8 @@ func init() {
 		Run:   runC01,
 		Trusted: []string{"hashicorp/consul/api returns the health state / catalog of the agent's datacenter; blocking queries honour WaitIndex", "sort.Sort orders the slice"},
 		Mutants: []mutant{
+			{Name: "manual update ignored while the service config is empty", File: "main.go", Old: "\t\t\tcase mancfg = <-man:\n\t\t\t}", New: "\t\t\tcase mancfg = <-man:\n\t\t\t\tif svccfg == \"\" {\n\t\t\t\t\tcontinue\n\t\t\t\t}\n\t\t\t}", Expect: "C01.B2"},
+
 			{Name: "health filter bypassed", File: "registry/consul/service.go", Old: "updates <- w.makeConfig(passing)", New: "_ = passing\n\t\tupdates <- w.makeConfig(prefixedChecks)", Expect: "C01.W1"},
 			{Name: "tag filter bypassed", File: "registry/consul/service.go", Old: "passing := passingServices(prefixedChecks, w.config.ServiceStatus, w.strict)", New: "passing := passingServices(checks, w.config.ServiceStatus, w.strict)", Expect: "C01.W1"},
 			{Name: "state accumulated across snapshots", File: "registry/consul/service.go", Old: "\tvar q *api.QueryOptions\n\tfor {", New: "\tvar q *api.QueryOptions\n\tvar seen api.HealthChecks\n\tfor {", Expect: "C01.W2",
@@ -756,6 +758,58 @@ func runC01B1(c *Ctx) {
 		for _, w := range append(append([]ssa.Instruction{}, svcW...), manW...) {
 			if !dominatesInstr(reset, w) || !dominatesInstr(w, ntCall) {
 				okReset = false
+			}
+		}
+	}
+	// every update received from either registry channel reaches the rebuild: from the select, the loop head is
+	// not reachable without passing the buffer Reset (the only legitimate skip is the unchanged-text comparison after it)
+	if reset != nil {
+		var sel ssa.Instruction
+		eachInstr(wb, func(i ssa.Instruction) {
+			if s, ok := i.(*ssa.Select); ok && len(s.States) >= 2 {
+				sel = i
+			}
+		})
+		if sel != nil {
+			var lp *loop
+			for _, l := range loopsOf(wb) {
+				if l.Body[sel.Block()] && (lp == nil || len(l.Body) < len(lp.Body)) {
+					lp = l
+				}
+			}
+			if lp != nil {
+				skip := false
+				// search from the select to the head avoiding the Reset call
+				type item struct {
+					b   *ssa.BasicBlock
+					idx int
+				}
+				seen := map[*ssa.BasicBlock]bool{}
+				stack := []item{{sel.Block(), instrIndex(sel) + 1}}
+				for len(stack) > 0 && !skip {
+					it := stack[len(stack)-1]
+					stack = stack[:len(stack)-1]
+					blocked := false
+					for k := it.idx; k < len(it.b.Instrs); k++ {
+						if it.b.Instrs[k] == reset {
+							blocked = true
+							break
+						}
+					}
+					if blocked {
+						continue
+					}
+					for _, sx := range it.b.Succs {
+						if sx == lp.Head {
+							skip = true
+						} else if lp.Body[sx] && !seen[sx] {
+							seen[sx] = true
+							stack = append(stack, item{sx, 0})
+						}
+					}
+				}
+				c.check("C01.B2", "main.watchBackend|every registry update is considered for a rebuild", sel.Pos(), !skip,
+					"an update received from the service or the manual channel can return to the select without rebuilding the candidate text: operator overrides (or service changes) received on that path are never applied — e.g. KV edits while no tagged instance is healthy")
 			}
 		}
 	}
